@@ -163,14 +163,32 @@ func (e *seqEnv) dispatch(m *sentMsg, msg *pb.XuperMessage, label string, stream
 	got := map[int]int{}
 	total := 0
 	foreign := false
-	for i, s := range e.subs {
-		s.drain(e.rc)
-		for _, dl := range s.take() {
-			got[i]++
-			total++
-			if dl.msg != msg && !proto.Equal(dl.msg, msg) {
-				foreign = true
+	collect := func() {
+		for i, s := range e.subs {
+			s.drain(e.rc)
+			for _, dl := range s.take() {
+				got[i]++
+				total++
+				if dl.msg != msg && !proto.Equal(dl.msg, msg) {
+					foreign = true
+				}
 			}
+		}
+	}
+	collect()
+	if stream != nil && !m.handled {
+		// the statement does not promise that Dispatch returns only after the hand-over: before a
+		// delivery is called missing, stragglers get a grace period (never reached on the pinned code)
+		want := 0
+		for i, s := range e.subs {
+			if e.table[i] && s.matches(m.typ, m.bc, m.from) {
+				want++
+			}
+		}
+		for k := 0; k < 40 && total < want && !m.attempted; k++ {
+			time.Sleep(5 * time.Millisecond)
+			collect()
+			e.res.count("seq.straggler_waits", 1)
 		}
 	}
 	e.oplog = append(e.oplog, fmt.Sprintf("Dispatch(%s) [%s] -> %s, delivered to %v", m, label, errStr(err), sortedKeys(got)))
@@ -525,6 +543,16 @@ func runCollisionProbes(res *childResult, seed int64, nc *nctx.NetCtx) {
 			case pn != nil:
 				res.violation("dispatch|seq|panic|Dispatch", fmt.Sprintf("Dispatch panicked: %v", pn), e.witness())
 			case n[want] == 0 && n[1-want] == 0:
+				// control: the same message under a log id that gives another concatenation must get through
+				// (otherwise the loss has nothing to do with the key and is reported by the generic check)
+				for c := 0; c < 6 && !e.tainted; c++ {
+					ctl := &sentMsg{id: 2 + c, typ: second.typ, bc: second.bc, from: second.from, logid: fmt.Sprintf("%s-control%d", second.logid, c), payload: 7, derivation: " = control"}
+					ctl.msg = buildMsg(ctl.typ, ctl.bc, ctl.from, ctl.logid, 7, false)
+					e.dispatch(ctl, ctl.msg, "fresh-message", e.stream)
+				}
+				if e.tainted {
+					continue
+				}
 				res.violation("dispatch|dedup|distinct-message-dropped|header-fields-concatenate-to-same-key",
 					fmt.Sprintf("two distinct messages (%s) whose type+chain+sender+logid+checksum strings concatenate identically: after %s was handled, %s was dropped as a repeat although it differs in a filtered header field and its subscriber s%d never saw it",
 						what, first, second, want), e.witness())
